@@ -3,6 +3,7 @@
 -/
 import SV.Misc.AdapterProofs
 import SV.Misc.AdapterMore
+import SV.GenProofs
 namespace SV.Props.C17
 open SV SV.Adapter
 
@@ -44,5 +45,9 @@ theorem hasOrAdd_spills_before_dropping (V : Bytes → Bytes) (S : List Bytes) (
     let r := a.hasOrAdd LRU.Variant.current k (V k) size
     (∀ e ∈ a.mem.entries, e.key ≠ k → r.1.mem.has e.key = false → alookup e.key r.1.db = some e.val) ∧
     (r.2.2 = true ↔ ∃ e ∈ a.mem.entries, e.key ≠ k ∧ r.1.mem.has e.key = false) := hasOrAdd_spills V S a k size h hv
+
+/-! ### tie by translation: the source's own leaf logic (regenerated into SV/Generated/Funcs.lean on every run) IS the model's -/
+theorem source_eviction_test_is_the_models (c : LRU.Cap) :
+    c.shouldEvict = Gen.lruShouldEvict c.entries.length c.cap c.bytes c.maxBytes := GenProofs.lruShouldEvict_eq c
 
 end SV.Props.C17
